@@ -5,7 +5,8 @@
 //   kind     vec std::vector<int>, arr std::array<int,N>, list std::list<int>, map std::map<int,int> (keys 0..n-1),
 //            carr int[N] (N >= 1), il std::initializer_list<int>, fv nitro::lang::fixed_vector<int>
 //   mode     l lvalue (the body writes through what it is given), c const lvalue, r temporary inside the for statement,
-//            m std::move of a local
+//            m std::move of a local, k CONST temporary (a function returning `const C` by value, called inside the for
+//            statement), s static_cast<const C&&>(temporary), q std::move of a const local
 //   elems    comma separated ints, "." = none
 // observation:  V <visits> A <alias bits | -> C <container afterwards | ->
 //   visits   enumerate: index:value,...   reverse: value,...   ("." = none)
@@ -182,6 +183,54 @@ template <class C> std::string rv_moved(C c, std::size_t n)
     return o.str(false);
 }
 
+// const rvalues: the adaptor must own these too
+template <class Mk> std::string en_constcast(Mk mk, std::size_t n)
+{
+    using C = decltype(mk());
+    Obs o;
+    for (auto x : nl::enumerate(static_cast<const C&&>(mk())))
+    {
+        if (o.count > n + 2) { o.runaway = true; break; }
+        o.visit_e(x.index(), val(x.value()));
+        o.count++;
+    }
+    return o.str(false);
+}
+template <class Mk> std::string rv_constcast(Mk mk, std::size_t n)
+{
+    using C = decltype(mk());
+    Obs o;
+    for (auto& x : nl::reverse(static_cast<const C&&>(mk())))
+    {
+        if (o.count > n + 2) { o.runaway = true; break; }
+        o.visit_r(val(x));
+        o.count++;
+    }
+    return o.str(false);
+}
+template <class C> std::string en_constmoved(const C c, std::size_t n)
+{
+    Obs o;
+    for (auto x : nl::enumerate(std::move(c)))
+    {
+        if (o.count > n + 2) { o.runaway = true; break; }
+        o.visit_e(x.index(), val(x.value()));
+        o.count++;
+    }
+    return o.str(false);
+}
+template <class C> std::string rv_constmoved(const C c, std::size_t n)
+{
+    Obs o;
+    for (auto& x : nl::reverse(std::move(c)))
+    {
+        if (o.count > n + 2) { o.runaway = true; break; }
+        o.visit_r(val(x));
+        o.count++;
+    }
+    return o.str(false);
+}
+
 // ---- one container kind in every mode ----
 template <class Mk> std::string run_container(bool en, char mode, Mk mk, std::size_t n)
 {
@@ -192,6 +241,9 @@ template <class Mk> std::string run_container(bool en, char mode, Mk mk, std::si
     case 'c': { const C c = mk(); return en ? en_lvalue(c, false) : rv_lvalue(c, false); }
     case 'r': return en ? en_rvalue(mk, n) : rv_rvalue(mk, n);
     case 'm': return en ? en_moved(mk(), n) : rv_moved(mk(), n);
+    case 'k': { auto cmk = [&mk]() -> const C { return mk(); }; return en ? en_rvalue(cmk, n) : rv_rvalue(cmk, n); }
+    case 's': return en ? en_constcast(mk, n) : rv_constcast(mk, n);
+    case 'q': return en ? en_constmoved<C>(mk(), n) : rv_constmoved<C>(mk(), n);
     }
     return "BADCASE";
 }
